@@ -16,28 +16,28 @@ func regModels() {
 	E, P, M, H, K, U := []string{"el"}, []string{"par"}, []string{"md"}, []string{"hail"}, []string{"book"}, []string{"pub"}
 
 	// ------------------------------------------------------------------ electricpb.Model
-	reg("e.demand", E, func(w *world, pr *proc) error { touch(w.el.Demand()); return nil })
+	reg("e.demand", E, func(w *world, pr *proc) error { touch(w.el[pr.in].Demand()); return nil })
 	reg("e.upddemand", E, func(w *world, pr *proc) error {
-		res, err := w.el.UpdateDemand(&traits.ElectricDemand{Current: float32(pr.rnd.n(10))}, resource.WithUpdatePaths("current"))
+		res, err := w.el[pr.in].UpdateDemand(&traits.ElectricDemand{Current: float32(pr.rnd.n(10))}, resource.WithUpdatePaths("current"))
 		touch(res)
 		return err
 	})
-	reg("e.active", E, func(w *world, pr *proc) error { touch(w.el.ActiveMode()); return nil })
+	reg("e.active", E, func(w *world, pr *proc) error { touch(w.el[pr.in].ActiveMode()); return nil })
 	reg("e.modes", E, func(w *world, pr *proc) error {
-		for _, m := range w.el.Modes() {
+		for _, m := range w.el[pr.in].Modes() {
 			touch(m)
 		}
 		return nil
 	})
 	reg("e.find", E, func(w *world, pr *proc) error {
-		m, _ := w.el.FindMode([]string{"m1", "m2"}[pr.rnd.n(2)])
+		m, _ := w.el[pr.in].FindMode([]string{"m1", "m2"}[pr.rnd.n(2)])
 		touch(m)
-		n, _ := w.el.NormalMode()
+		n, _ := w.el[pr.in].NormalMode()
 		touch(n)
 		return nil
 	})
 	reg("e.create", E, func(w *world, pr *proc) error {
-		res, err := w.el.CreateMode(&traits.ElectricMode{Title: "made", Segments: []*traits.ElectricMode_Segment{{Magnitude: 4}}})
+		res, err := w.el[pr.in].CreateMode(&traits.ElectricMode{Title: "made", Segments: []*traits.ElectricMode_Segment{{Magnitude: 4}}})
 		touch(res)
 		if res != nil {
 			pr.lastID["el"] = res.Id
@@ -45,10 +45,10 @@ func regModels() {
 		return err
 	})
 	reg("e.add", E, func(w *world, pr *proc) error {
-		return w.el.AddMode(&traits.ElectricMode{Id: pr.uniq("x"), Title: "added"})
+		return w.el[pr.in].AddMode(&traits.ElectricMode{Id: pr.uniq("x"), Title: "added"})
 	})
 	reg("e.update", E, func(w *world, pr *proc) error {
-		res, err := w.el.UpdateMode(&traits.ElectricMode{Id: "m2", Title: pr.uniq("t")}, resource.WithUpdatePaths("title"))
+		res, err := w.el[pr.in].UpdateMode(&traits.ElectricMode{Id: "m2", Title: pr.uniq("t")}, resource.WithUpdatePaths("title"))
 		touch(res)
 		return err
 	})
@@ -57,21 +57,21 @@ func regModels() {
 		if id == "" {
 			id = "m2"
 		}
-		return w.el.DeleteMode(id, resource.WithAllowMissing(true))
+		return w.el[pr.in].DeleteMode(id, resource.WithAllowMissing(true))
 	})
 	reg("e.change", E, func(w *world, pr *proc) error {
-		res, err := w.el.ChangeActiveMode([]string{"m1", "m2"}[pr.rnd.n(2)])
+		res, err := w.el[pr.in].ChangeActiveMode([]string{"m1", "m2"}[pr.rnd.n(2)])
 		touch(res)
 		return err
 	})
 	reg("e.normal", E, func(w *world, pr *proc) error {
-		res, err := w.el.ChangeToNormalMode()
+		res, err := w.el[pr.in].ChangeToNormalMode()
 		touch(res)
 		return err
 	})
 	reg("e.pulldemand", E, func(w *world, pr *proc) error {
 		ctx, cancel := context.WithCancel(w.root)
-		consume(pr, w.el.PullDemand(ctx, resource.WithBackpressure(true)), cancel, 2, func(c electricpb.PullDemandChange) {
+		consume(pr, w.el[pr.in].PullDemand(ctx, resource.WithBackpressure(true)), cancel, 2, func(c electricpb.PullDemandChange) {
 			touch(c.Value)
 			touchTime(c.ChangeTime)
 		})
@@ -79,7 +79,7 @@ func regModels() {
 	})
 	reg("e.pullactive", E, func(w *world, pr *proc) error {
 		ctx, cancel := context.WithCancel(w.root)
-		consume(pr, w.el.PullActiveMode(ctx), cancel, 2, func(c electricpb.PullActiveModeChange) {
+		consume(pr, w.el[pr.in].PullActiveMode(ctx), cancel, 2, func(c electricpb.PullActiveModeChange) {
 			touch(c.ActiveMode)
 			touchTime(c.ChangeTime)
 		})
@@ -87,7 +87,7 @@ func regModels() {
 	})
 	reg("e.pullmodes", E, func(w *world, pr *proc) error {
 		ctx, cancel := context.WithCancel(w.root)
-		consume(pr, w.el.PullModes(ctx, resource.WithBackpressure(true)), cancel, 3, func(c electricpb.PullModesChange) {
+		consume(pr, w.el[pr.in].PullModes(ctx, resource.WithBackpressure(true)), cancel, 3, func(c electricpb.PullModesChange) {
 			// typed nil pointers are fine for touch
 			if c.OldValue != nil {
 				touch(c.OldValue)
@@ -103,55 +103,55 @@ func regModels() {
 
 	// ------------------------------------------------------------------ parentpb.Model
 	reg("p.add", P, func(w *world, pr *proc) error {
-		w.par.AddChild(&traits.Child{Name: []string{"c1", "c2", "c3"}[pr.rnd.n(3)], Traits: []*traits.Trait{{Name: "a"}, {Name: "c"}}})
+		w.par[pr.in].AddChild(&traits.Child{Name: []string{"c1", "c2", "c3"}[pr.rnd.n(3)], Traits: []*traits.Trait{{Name: "a"}, {Name: "c"}}})
 		return nil
 	})
 	reg("p.addtrait", P, func(w *world, pr *proc) error {
-		c, created := w.par.AddChildTrait([]string{"c1", "c2", "c3"}[pr.rnd.n(3)], pr.traitName(), pr.traitName())
+		c, created := w.par[pr.in].AddChildTrait([]string{"c1", "c2", "c3"}[pr.rnd.n(3)], pr.traitName(), pr.traitName())
 		touch(c)
 		useBool(created)
 		return nil
 	})
 	reg("p.remtrait", P, func(w *world, pr *proc) error {
-		c := w.par.RemoveChildTrait([]string{"c1", "c2"}[pr.rnd.n(2)], pr.traitName())
+		c := w.par[pr.in].RemoveChildTrait([]string{"c1", "c2"}[pr.rnd.n(2)], pr.traitName())
 		if c != nil {
 			touch(c)
 		}
 		return nil
 	})
 	reg("p.remove", P, func(w *world, pr *proc) error {
-		c, err := w.par.RemoveChildByName([]string{"c2", "c3"}[pr.rnd.n(2)], resource.WithAllowMissing(true))
+		c, err := w.par[pr.in].RemoveChildByName([]string{"c2", "c3"}[pr.rnd.n(2)], resource.WithAllowMissing(true))
 		if c != nil {
 			touch(c)
 		}
 		return err
 	})
 	reg("p.list", P, func(w *world, pr *proc) error {
-		for _, c := range w.par.ListChildren() {
+		for _, c := range w.par[pr.in].ListChildren() {
 			touch(c)
 		}
 		return nil
 	})
 	reg("p.pull", P, func(w *world, pr *proc) error {
 		ctx, cancel := context.WithCancel(w.root)
-		consume(pr, w.par.PullChildren(ctx, resource.WithBackpressure(true)), cancel, 3, func(c *traits.PullChildrenResponse_Change) { touch(c) })
+		consume(pr, w.par[pr.in].PullChildren(ctx, resource.WithBackpressure(true)), cancel, 3, func(c *traits.PullChildrenResponse_Change) { touch(c) })
 		return nil
 	})
 
 	// ------------------------------------------------------------------ metadatapb.Model
 	reg("m.get", M, func(w *world, pr *proc) error {
-		res, err := w.md.GetMetadata()
+		res, err := w.md[pr.in].GetMetadata()
 		touch(res)
 		return err
 	})
 	reg("m.update", M, func(w *world, pr *proc) error {
-		res, err := w.md.UpdateMetadata(&traits.Metadata{Name: pr.uniq("dev"), Appearance: &traits.Metadata_Appearance{Title: "t"}},
+		res, err := w.md[pr.in].UpdateMetadata(&traits.Metadata{Name: pr.uniq("dev"), Appearance: &traits.Metadata_Appearance{Title: "t"}},
 			resource.WithUpdatePaths("name", "appearance"))
 		touch(res)
 		return err
 	})
 	reg("m.merge", M, func(w *world, pr *proc) error {
-		res, err := w.md.MergeMetadata(&traits.Metadata{
+		res, err := w.md[pr.in].MergeMetadata(&traits.Metadata{
 			More:   map[string]string{pr.uniq("k"): "v"},
 			Traits: []*traits.TraitMetadata{{Name: []string{"t1", "t2", "t3"}[pr.rnd.n(3)], More: map[string]string{"m": pr.uniq("v")}}},
 		})
@@ -159,19 +159,19 @@ func regModels() {
 		return err
 	})
 	reg("m.trait", M, func(w *world, pr *proc) error {
-		res, err := w.md.UpdateTraitMetadata(&traits.TraitMetadata{Name: []string{"t1", "t2", "t0"}[pr.rnd.n(3)], More: map[string]string{"u": pr.uniq("v")}})
+		res, err := w.md[pr.in].UpdateTraitMetadata(&traits.TraitMetadata{Name: []string{"t1", "t2", "t0"}[pr.rnd.n(3)], More: map[string]string{"u": pr.uniq("v")}})
 		touch(res)
 		return err
 	})
 	reg("m.pull", M, func(w *world, pr *proc) error {
 		ctx, cancel := context.WithCancel(w.root)
-		consume(pr, w.md.PullMetadata(ctx, resource.WithBackpressure(true)), cancel, 3, func(c *traits.PullMetadataResponse_Change) { touch(c) })
+		consume(pr, w.md[pr.in].PullMetadata(ctx, resource.WithBackpressure(true)), cancel, 3, func(c *traits.PullMetadataResponse_Change) { touch(c) })
 		return nil
 	})
 
 	// ------------------------------------------------------------------ hailpb.Model (generated ids without a model lock)
 	reg("h.create", H, func(w *world, pr *proc) error {
-		res, err := w.hail.CreateHail(&traits.Hail{Origin: &traits.Hail_Location{DisplayName: pr.uniq("o")}})
+		res, err := w.hail[pr.in].CreateHail(&traits.Hail{Origin: &traits.Hail_Location{DisplayName: pr.uniq("o")}})
 		if res != nil {
 			touch(res)
 			pr.lastID["hail"] = res.Id
@@ -179,7 +179,7 @@ func regModels() {
 		return err
 	})
 	reg("h.list", H, func(w *world, pr *proc) error {
-		for _, h := range w.hail.ListHails() {
+		for _, h := range w.hail[pr.in].ListHails() {
 			touch(h)
 		}
 		return nil
@@ -187,18 +187,18 @@ func regModels() {
 	reg("h.update", H, func(w *world, pr *proc) error {
 		id := pr.lastID["hail"]
 		if id == "" {
-			if hs := w.hail.ListHails(); len(hs) > 0 {
+			if hs := w.hail[pr.in].ListHails(); len(hs) > 0 {
 				id = hs[0].Id
 			}
 		}
-		res, err := w.hail.UpdateHail(&traits.Hail{Id: id, State: traits.Hail_BOARDING}, resource.WithUpdatePaths("state"))
+		res, err := w.hail[pr.in].UpdateHail(&traits.Hail{Id: id, State: traits.Hail_BOARDING}, resource.WithUpdatePaths("state"))
 		if res != nil {
 			touch(res)
 		}
 		return err
 	})
 	reg("h.delete", H, func(w *world, pr *proc) error {
-		res, err := w.hail.DeleteHail(pr.lastID["hail"], resource.WithAllowMissing(true))
+		res, err := w.hail[pr.in].DeleteHail(pr.lastID["hail"], resource.WithAllowMissing(true))
 		if res != nil {
 			touch(res)
 		}
@@ -206,7 +206,7 @@ func regModels() {
 	})
 	reg("h.pull", H, func(w *world, pr *proc) error {
 		ctx, cancel := context.WithCancel(w.root)
-		consume(pr, w.hail.PullHails(ctx, resource.WithBackpressure(true)), cancel, 3, func(c hailpb.HailsChange) {
+		consume(pr, w.hail[pr.in].PullHails(ctx, resource.WithBackpressure(true)), cancel, 3, func(c hailpb.HailsChange) {
 			if c.OldValue != nil {
 				touch(c.OldValue)
 			}
@@ -220,7 +220,7 @@ func regModels() {
 
 	// ------------------------------------------------------------------ bookingpb.Model
 	reg("k.create", K, func(w *world, pr *proc) error {
-		res, err := w.book.CreateBooking(&traits.Booking{Title: pr.uniq("b"), OwnerName: "me"})
+		res, err := w.book[pr.in].CreateBooking(&traits.Booking{Title: pr.uniq("b"), OwnerName: "me"})
 		if res != nil {
 			touch(res)
 			pr.lastID["book"] = res.Id
@@ -228,7 +228,7 @@ func regModels() {
 		return err
 	})
 	reg("k.list", K, func(w *world, pr *proc) error {
-		for _, b := range w.book.ListBookings() {
+		for _, b := range w.book[pr.in].ListBookings() {
 			touch(b)
 		}
 		return nil
@@ -238,7 +238,7 @@ func regModels() {
 		if id == "" {
 			id = "k1"
 		}
-		res, err := w.book.UpdateBooking(&traits.Booking{Id: id, Title: pr.uniq("t")}, resource.WithUpdatePaths("title"))
+		res, err := w.book[pr.in].UpdateBooking(&traits.Booking{Id: id, Title: pr.uniq("t")}, resource.WithUpdatePaths("title"))
 		if res != nil {
 			touch(res)
 		}
@@ -246,7 +246,7 @@ func regModels() {
 	})
 	reg("k.pull", K, func(w *world, pr *proc) error {
 		ctx, cancel := context.WithCancel(w.root)
-		consume(pr, w.book.PullBookings(ctx, resource.WithBackpressure(true)), cancel, 3, func(c bookingpb.BookingChange) {
+		consume(pr, w.book[pr.in].PullBookings(ctx, resource.WithBackpressure(true)), cancel, 3, func(c bookingpb.BookingChange) {
 			if c.OldValue != nil {
 				touch(c.OldValue)
 			}
@@ -260,7 +260,7 @@ func regModels() {
 
 	// ------------------------------------------------------------------ publicationpb.Model
 	reg("u.create", U, func(w *world, pr *proc) error {
-		res, err := w.pub.CreatePublication(&traits.Publication{Body: []byte(pr.uniq("body")), Audience: &traits.Publication_Audience{Name: "aud"}},
+		res, err := w.pub[pr.in].CreatePublication(&traits.Publication{Body: []byte(pr.uniq("body")), Audience: &traits.Publication_Audience{Name: "aud"}},
 			publicationpb.WithNewVersion(), publicationpb.WithNewPublishTime())
 		if res != nil {
 			touch(res)
@@ -269,20 +269,20 @@ func regModels() {
 		return err
 	})
 	reg("u.get", U, func(w *world, pr *proc) error {
-		res, _ := w.pub.GetPublication("u1")
+		res, _ := w.pub[pr.in].GetPublication("u1")
 		if res != nil {
 			touch(res)
 		}
 		return nil
 	})
 	reg("u.list", U, func(w *world, pr *proc) error {
-		for _, p := range w.pub.ListPublications() {
+		for _, p := range w.pub[pr.in].ListPublications() {
 			touch(p)
 		}
 		return nil
 	})
 	reg("u.update", U, func(w *world, pr *proc) error {
-		res, err := w.pub.UpdatePublication("u1", &traits.Publication{Body: []byte(pr.uniq("b"))},
+		res, err := w.pub[pr.in].UpdatePublication("u1", &traits.Publication{Body: []byte(pr.uniq("b"))},
 			resource.WithUpdatePaths("body"), publicationpb.WithNewVersion(), publicationpb.WithResetReceipt())
 		if res != nil {
 			touch(res)
@@ -290,7 +290,7 @@ func regModels() {
 		return err
 	})
 	reg("u.delete", U, func(w *world, pr *proc) error {
-		res, err := w.pub.DeletePublication(pr.lastID["pub"], resource.WithAllowMissing(true))
+		res, err := w.pub[pr.in].DeletePublication(pr.lastID["pub"], resource.WithAllowMissing(true))
 		if res != nil {
 			touch(res)
 		}
@@ -298,7 +298,7 @@ func regModels() {
 	})
 	reg("u.pull", U, func(w *world, pr *proc) error {
 		ctx, cancel := context.WithCancel(w.root)
-		consume(pr, w.pub.PullPublications(ctx, resource.WithBackpressure(true)), cancel, 3, func(c publicationpb.PublicationsChange) {
+		consume(pr, w.pub[pr.in].PullPublications(ctx, resource.WithBackpressure(true)), cancel, 3, func(c publicationpb.PublicationsChange) {
 			if c.OldValue != nil {
 				touch(c.OldValue)
 			}
